@@ -206,6 +206,13 @@ def run_kani_group(ws, group, harnesses, jobs, timeout):
     return cmd, rc, out, wall
 
 
+
+def lib_section(out):
+    """Output of the crate's own unit-test binary (playback tests live there); integration
+    and doc test binaries that cargo also starts are ignored."""
+    m = re.search(r"Running unittests src/lib\.rs.*?(?=\n\s+Running |\n\s+Doc-tests |\Z)", out, flags=re.S)
+    return m.group(0) if m else out
+
 def playback(ws, group, harness_rec, pid):
     """Re-run one failing harness with concrete playback, then execute the generated unit
     test natively (cargo kani playback) against the real code of the scratch copy."""
@@ -239,6 +246,7 @@ def playback(ws, group, harness_rec, pid):
     penv["RUST_BACKTRACE"] = "0"
     rc2, out2, _ = run(pcmd, cwd=ws, timeout=1800, env=penv)
     res["native_cmd"] = " ".join(pcmd)
+    out2 = lib_section(out2)
     panics = re.findall(r"panicked at ([^\n]*):\n([^\n]*)", out2)
     res["native_output"] = out2[-2500:]
     if re.search(r"test result: FAILED", out2) and panics:
@@ -401,6 +409,7 @@ def do_replay(pid, cfg, args):
             pcmd += ["--features", group["features"]]
         pcmd += ["--", "kani_concrete_playback", "--test-threads", "1"]
         rc, out, _ = run(pcmd, cwd=ws, timeout=1800, env=env)
+        out = lib_section(out)
         log(out[-3000:])
         if "test result: FAILED" in out:
             log("REPLAY: reproduced natively on the current tree")
